@@ -40,8 +40,13 @@
     repeated From is scanned generically and never touches the shortcut); `shortcut_parsed_of_flag` (type flag set ⇒
     shortcut parsed, also when the array was too small to store the header); `contact_values_inside_header_line`: for
     one Contact line the header's `Val` is the running extent and every value stored from that line lies inside it.
-  NOT proved: the message-level association "every stored Contact / PAI value lies inside the Val of a STORED header of
-  that type" (the per-line statement is proved; the containment oracle checks the rest); trimming of white space inside name-addr spans (the code is not consistent there: `;tag= ,x` keeps the
+  * **every stored Contact / identity value inside the value of the header line it came from, for EVERY input**
+    (`Sipsp.Proofs.PaiLines`): `values_in_headers_init`, `values_in_headers_schedule_init`, `values_in_headers_meaning`:
+    after a successful ParseSIPMsg (one call from Init, any capacities; every chain of resumed calls over growing
+    prefixes) there is a monotone map from stored Contact values to counted header lines such that, whenever that
+    header is itself stored, it has type Contact, and the value's V is non-empty and lies inside that header's Val;
+    the same for P-Asserted-Identity. `value_nonempty` removes the "empty V" exception of the per-line statement.
+  NOT proved: that the associated header is exactly the HNo-th header of its type (monotone and of the right type only); trimming of white space inside name-addr spans (the code is not consistent there: `;tag= ,x` keeps the
   blank inside V and the parameter span, `;tag=1 ,x` does not — the spans are still nested); strictness
   `cseq end < method`.
 -/
@@ -51,6 +56,7 @@ import Sipsp.Properties.C08
 import Sipsp.Proofs.FieldsLo
 import Sipsp.Proofs.NaNest
 import Sipsp.Proofs.SigCovered
+import Sipsp.Proofs.PaiLines
 
 namespace Sipsp.C05
 open Sipsp
@@ -332,5 +338,27 @@ theorem contact_values_inside_header_line : type_of% @Sipsp.svc_contact_header :
 /-- layout of a successful message parse, relative to the header block the call (or an earlier call) finished:
     `∃ h`, the end of the header block, with `start ≤ … ≤ h ≤ o'` -/
 theorem headers_end_is_body_start : type_of% @Sipsp.msgHeaders_layout := @Sipsp.msgHeaders_layout
+
+/-! ### every stored Contact / identity value lies inside the value of the header line it came from (proved in `Sipsp.Proofs.PaiLines`) -/
+
+/-- **[C05] message level, one call on an object produced by Init** (any previous contents, caller arrays of any
+    capacity or none; EVERY input within the 65,535-byte limit) -/
+theorem values_in_headers_init : type_of% @Sipsp.pl_values_in_headers_init := @Sipsp.pl_values_in_headers_init
+
+/-- **[C05] … under every chunk schedule, from Init**: if the chain of resumed calls over growing prefixes ends with
+    OK, the final object satisfies the same statement -/
+theorem values_in_headers_schedule_init : type_of% @Sipsp.pl_values_in_headers_schedule_init := @Sipsp.pl_values_in_headers_schedule_init
+
+/-- **`PlMsg`, spelled out**: there is a map `f` from value indices to header-line indices (`f k < HdrLst.N`), monotone
+    on the values counted (`k ≤ k' < N` ⇒ `f k ≤ f k'`: values are associated with header lines in message order), such
+    that for every stored Contact value `k` (`k < min (N, capacity)`), if header `f k` is stored (`f k` below the capacity
+    of the header array) then header `f k` is a Contact header, the value's `V` has at least one byte, starts at or after
+    the start of the header's `val` and ends at or before its end; likewise for the stored P-Asserted-Identity values -/
+theorem values_in_headers_meaning : type_of% @Sipsp.PlMsg.meaning := @Sipsp.PlMsg.meaning
+
+/-- **a completed name-addr value is never empty**: whenever ParseNameAddrPVal, started on a new object, says OK or
+    "more values", the reported value span `V` has at least one byte — every header kind, EVERY input within the
+    65,535-byte limit -/
+theorem value_nonempty : type_of% @Sipsp.pn_value_nonempty := @Sipsp.pn_value_nonempty
 
 end Sipsp.C05
